@@ -126,7 +126,7 @@ def fault_store(kind, db_path=None, **kw):
 class Proc:
     """One emulated server process."""
 
-    def __init__(self, spec, store, *, idle_timeout=1000.0, backoff=(0.5, 3), name="wf", stack="inproc", lifecycle_db=None, create_rows=False, engine=None):
+    def __init__(self, spec, store, *, idle_timeout=1000.0, backoff=(0.5, 3), name="wf", stack="inproc", lifecycle_db=None, create_rows=False, engine=None, engine_latency=None):
         import llama_agents.server.server as srv
         import workflows.plugins.basic as basic
         from llama_agents.server import WorkflowServer
@@ -149,7 +149,7 @@ class Proc:
         if stack == "dbos_sub":
             # DBOS server stack with the DBOS engine substituted: the real DBOSIdleReleaseDecorator / EventInterceptorDecorator /
             # TickPersistenceDecorator / SqliteRunLifecycleLock chain (as DBOSRuntime.build_server_runtime wires it) over a BasicRuntime
-            self.dbos_runtime = build_dbos_substitute(fresh, store, idle_timeout, lifecycle_db)
+            self.dbos_runtime = build_dbos_substitute(fresh, store, idle_timeout, lifecycle_db, latency=engine_latency)
             self.server = WorkflowServer(workflow_store=store, runtime=self.dbos_runtime, persistence_backoff=list(backoff))
         else:
             self.server = WorkflowServer(workflow_store=store, idle_timeout=idle_timeout, persistence_backoff=list(backoff))
@@ -188,7 +188,7 @@ class Proc:
         return found[0] if found else None
 
 
-def build_dbos_substitute(basic, store, idle_timeout, lifecycle_db):
+def build_dbos_substitute(basic, store, idle_timeout, lifecycle_db, latency=None):
     """DBOSRuntime.build_server_runtime's chain with `basic` in DBOSRuntime's place.  The `DBOS` name used by
     llama_agents.dbos.idle_release (retrieve_workflow_async / delete_workflow_async) is bound to the substitute engine."""
     import sqlite3
@@ -252,6 +252,8 @@ def build_dbos_substitute(basic, store, idle_timeout, lifecycle_db):
                 ev = getattr(tick, "event", None)
                 uid = ev.get("uid", None) if ev is not None and hasattr(ev, "get") else None
                 SubDBOS.calls.append(("send", run_id, vclock.vnow(), uid, bool(q is not None and q.complete is not None and q.complete.done())))
+                if latency:
+                    await asyncio.sleep(latency)  # the engine's send is a database round trip
                 return await orig_send(tick)
 
             inner.send_event = send_event
@@ -263,8 +265,30 @@ def build_dbos_substitute(basic, store, idle_timeout, lifecycle_db):
         basic.vf_calls = []
     SubDBOS.calls = basic.vf_calls
     tick_persistence = TickPersistenceDecorator(SubEngine(basic), store)
+    class LatentLock:
+        """the real lifecycle lock; every reply arrives `latency` virtual seconds after the call took effect (a networked database)"""
+
+        def __init__(self, inner):
+            self._inner = inner
+
+        def __getattr__(self, name):
+            fn = getattr(self._inner, name)
+            if not asyncio.iscoroutinefunction(fn):
+                return fn
+
+            async def call(*a, **k):
+                r = await fn(*a, **k)
+                await asyncio.sleep(latency)
+                return r
+
+            return call
+
+    def make_lock():
+        lk = lc.SqliteRunLifecycleLock(lifecycle_db)
+        return LatentLock(lk) if latency else lk
+
     rt = ir.DBOSIdleReleaseDecorator(EventInterceptorDecorator(tick_persistence), store=store, idle_timeout=idle_timeout, journal_crud=None,
-                                     lifecycle_lock=lambda: lc.SqliteRunLifecycleLock(lifecycle_db))
+                                     lifecycle_lock=make_lock)
     rt.vf_sub = SubDBOS
     return rt
 
